@@ -18,7 +18,7 @@ ANCHORS = [("lib/debian/deb822.py",
              "_gpgre", "_initial_blank_line", "_blank_line_whitespace", "_blank_line_no_whitespace",
              "split_gpg_and_payload", "_skip_useless_lines", "iter_paragraphs"]),
            ("lib/debian/_util.py", ["_CaseInsensitiveString", "OrderedSet"])]
-BUDGET = {"quick": 1000, "thorough": 5000}
+BUDGET = {"quick": 1200, "thorough": 5000}
 RULE = ("a case = 1-5 assignments p[k] = v on a fresh Deb822() (0-4 existing fields with accepted realistic values - "
         "multi-line, CR/CRLF inside, blank or whitespace-only first line, whitespace-only continuation line - then the "
         "assignment under test: a new name, or an existing name in the same or another case at the first / a middle / "
@@ -36,12 +36,17 @@ TRUSTED = ["model coq/Deb822/Model.v is a hand transcription of Deb822.validate_
            "(regex leaves match_single/match_multi/match_multidata/match_gpgre included); tied to the code only by this "
            "correspondence (the leaves are also compared one by one with the live compiled patterns by check C02)",
            "Python str.splitlines/strip/endswith as modelled in coq/Lib/PyStr.v (validated by ./check LIB)",
-           "io.StringIO yields LF-terminated lines: modelled by Model.file_lines"]
+           "io.StringIO yields LF-terminated lines: modelled by Model.file_lines",
+           "Props/C08.v proves InjectCheck.agree c = true -> InjectCheck.holds c = true for every case: a holds failure "
+           "on the implementation always comes with an agree failure"]
 ASSUMPTIONS = ["field names are compared by ASCII lower-casing; generated names are ASCII or caseless non-ASCII",
                "the property's domain: names without ':' / Python whitespace / Python line boundaries and not starting "
                "with '#', pairwise distinct ignoring case; values over printable text, ':', '#', SP, TAB, CR, LF "
                "(c08_dom); outside it holds is vacuous and only the correspondence is checked",
-               "fields=None; apt_pkg absent (internal parser)"]
+               "fields=None; apt_pkg absent (internal parser)",
+               "to keep the case files small the emitter writes the mapping only after the last assignment, after a "
+               "refused one and before a refused one, and writes a re-read only when it differs from the previous "
+               "form (InjectCheck.agree demands exactly these records)"]
 
 SYMS = ["a", ":", "#", " ", "\t", "\r", "\n", "-"]
 OUT_SYMS = ["\u00a0", "\x0b", "\x0c", "\x1c", "\x85", "\u2028", "\u3000", "\x1f", "\u2003", "\x1d"]
